@@ -358,9 +358,13 @@ func (h *MultiHandler) abort(err error, culprits ...party.ID) {
 
 // Stop cancels the current execution of the protocol, and alerts the other users.
 func (h *MultiHandler) Stop() {
+	h.mtx.Lock()
+	defer h.mtx.Unlock()
+	// nothing to stop if the protocol has already finished or aborted (the channel is closed by then)
 	if h.err != nil || h.result != nil {
-		h.abort(errors.New("aborted by user"), h.currentRound.SelfID())
+		return
 	}
+	h.abort(errors.New("aborted by user"), h.currentRound.SelfID())
 }
 
 func expectsNormalMessage(r round.Session) bool {
